@@ -370,7 +370,8 @@ func (u *Unit) typeFact(v Val) string {
 	switch v.Ty.Underlying().(type) {
 	case *types.Slice:
 		id := sortId(sliceElemSortOf(v.S))
-		return fmt.Sprintf("(and (>= (slen_%s %s) 0) (=> (snil_%s %s) (= (slen_%s %s) 0)))", id, v.T, id, v.T, id, v.T)
+		// lengths are bounded by the address space (Go caps allocations at 2^48 bytes on amd64)
+		return fmt.Sprintf("(and (>= (slen_%s %s) 0) (<= (slen_%s %s) 281474976710656) (=> (snil_%s %s) (= (slen_%s %s) 0)))", id, v.T, id, v.T, id, v.T, id, v.T)
 	case *types.Pointer, *types.Map, *types.Chan, *types.Interface, *types.Signature:
 		return fmt.Sprintf("(>= %s 0)", v.T)
 	}
@@ -406,7 +407,9 @@ func (u *Unit) regHeap(key, sort string) {
 func (u *Unit) mapKeys(m *types.Map) (dom, val, ks, vs string) {
 	ks = u.sortOf(m.Key())
 	vs = u.sortOf(m.Elem())
-	id := sortId(ks) + "_" + sortId(vs)
+	// one pair of heap arrays per Go map type (not per sort pair), so that a loop writing
+	// maps of one type does not lose what is known about maps of another
+	id := sanitize(types.TypeString(m, func(p *types.Package) string { return p.Name() }))
 	dom = "M_" + id + ".dom"
 	val = "M_" + id + ".val"
 	u.regHeap(dom, "(Array Int (Array "+ks+" Bool))")
